@@ -375,44 +375,9 @@ func c06case(c *Ctx) *vmCase {
 	return k
 }
 
-// c06catCheck scans a kept trace text: after a depth-0 CAT/CATPUSHDATA the items below the result
-// must be the previous depth-0 stack minus the two operands.  `args` is the initial stack (bottom first).
+// c06catCheck: a depth-0 CAT/CATPUSHDATA leaves the items below its result unchanged.
 func c06catCheck(text string, args [][]byte) string {
-	var stack0, cur []string
-	for i := len(args) - 1; i >= 0; i-- {
-		stack0 = append(stack0, fmt.Sprintf("%x", args[i]))
-	}
-	pending := ""
-	for _, ln := range strings.Split(text, "\n") {
-		if strings.HasPrefix(ln, "vm ") {
-			f := strings.Fields(ln)
-			if f[1] != "0" {
-				cur = nil
-				continue
-			}
-			if pending != "" {
-				next := cur
-				if strings.HasPrefix(pending, "NOPx") {
-					next = stack0
-				}
-				if (pending == "CAT" || pending == "CATPUSHDATA") && len(stack0) >= 2 && len(next) >= 1 {
-					if strings.Join(stack0[2:], ",") != strings.Join(next[1:], ",") {
-						return fmt.Sprintf("before %s: [%s]  after: [%s]", pending, strings.Join(stack0, ","), strings.Join(next, ","))
-					}
-				}
-				stack0 = next
-			}
-			pending = f[6]
-			cur = nil
-		} else if strings.HasPrefix(ln, "  stack ") {
-			if strings.HasPrefix(ln, "  stack 0:") {
-				cur = nil
-			}
-			i := strings.IndexByte(ln, ':')
-			cur = append(cur, strings.TrimSpace(ln[i+1:]))
-		}
-	}
-	return ""
+	return stackBelowCheck(text, args, map[string]int{"CAT": 2, "CATPUSHDATA": 2})
 }
 
 func c06one(c *Ctx, k *vmCase, tag string) {
